@@ -642,8 +642,16 @@ func (r *Run) check(fr *frame, c *Term, label string) {
 			feasBad = true
 			mBad, _ = r.w.solver.Model()
 		case Unknown:
-			r.solverUnknown++
-			r.res.obligationsUnknown++
+			// second opinion from a fresh (non-incremental) solver process with four times the
+			// time limit: the incremental solver's verdict depends on what it has seen before
+			// and its clock is wall time, which a loaded machine stretches
+			switch res2, m2 := r.retryFresh(nc); res2 {
+			case Sat:
+				feasBad, mBad = true, m2
+			case Unknown:
+				r.solverUnknown++
+				r.res.obligationsUnknown++
+			}
 		}
 	}
 	if feasBad {
@@ -676,6 +684,25 @@ func (r *Run) check(fr *frame, c *Term, label string) {
 	} else {
 		r.addPC(c)
 	}
+}
+
+// retryFresh decides pc ∧ extra with a new solver process.
+func (r *Run) retryFresh(extra *Term) (SatResult, Model) {
+	s2, err := NewSolver(r.eng.cfg.Solver, 4*r.eng.cfg.TimeoutMS)
+	if err != nil {
+		return Unknown, nil
+	}
+	defer s2.Close()
+	s2.ctx = "retry:" + r.w.solver.ctx
+	for _, p := range r.pc {
+		s2.Assert(p)
+	}
+	res := s2.CheckWith(extra)
+	if res == Sat {
+		m, _ := s2.Model()
+		return res, m
+	}
+	return res, nil
 }
 
 func (fr *frame) repoSiteOrSelf() string {
